@@ -52,6 +52,34 @@ fn ref_if(vals: &[Value], k: usize, order: &mut [usize; 12]) -> (Option<usize>, 
     (None, n)
 }
 
+/// `{"var": true}`: a literal-looking operand that ERRORS when (and only when) it is evaluated
+fn poison() -> Value {
+    let mut m = Map::new();
+    m.insert(String::from("var"), Value::Bool(true));
+    Value::Object(m)
+}
+/// Native replay cannot observe "evaluated" on literals, so there the operands that the reference says must NOT
+/// be evaluated are replaced by poison: evaluating one of them turns the result into an error (end to end through
+/// the real parser and evaluator).
+#[cfg(verif_replay)]
+fn poisoned<'a>(vals: &'a [Value], pz: &'a Value, k: usize, order: &[usize; 12], n: usize) -> Vec<&'a Value> {
+    let mut args: Vec<&Value> = Vec::with_capacity(8);
+    let mut i = 0;
+    while i < k {
+        let mut used = false;
+        let mut j = 0;
+        while j < n {
+            if order[j] == i {
+                used = true;
+            }
+            j += 1;
+        }
+        args.push(if used { &vals[i] } else { pz });
+        i += 1;
+    }
+    args
+}
+
 fn check_log(vals: &[Value], order: &[usize; 12], n: usize) {
     // only meaningful when the recording stub is active (Kani); natively the log stays empty
     #[cfg(kani)]
@@ -78,11 +106,14 @@ pub fn if_case(k: usize) {
         i += 1;
     }
     let data = Value::Null;
+    let mut order = [0usize; 12];
+    let (sel, n) = ref_if(&vals, k, &mut order);
+    let pz = poison();
+    #[cfg(verif_replay)]
+    let args = poisoned(&vals, &pz, k, &order, n);
     log_reset();
     let r = logic::if_(&data, &args);
     vshow!("if{:?} = {:?}", args, r);
-    let mut order = [0usize; 12];
-    let (sel, n) = ref_if(&vals, k, &mut order);
     match (&r, sel) {
         (Ok(Value::Null), None) => {}
         (Ok(v), Some(e)) => assert!(same_scalar(v, &vals[e]), "C05: `if` returned a different operand than the branch of the first truthy condition / the trailing else"),
@@ -103,9 +134,6 @@ pub fn andor_case(k: usize, is_and: bool) {
         i += 1;
     }
     let data = Value::Null;
-    log_reset();
-    let r = if is_and { logic::and(&data, &args) } else { logic::or(&data, &args) };
-    vshow!("{}{:?} = {:?}", if is_and { "and" } else { "or" }, args, r);
     // reference: first falsy (and) / truthy (or) operand, else the last; operands after it are not evaluated
     let mut order = [0usize; 12];
     let mut n = 0;
@@ -120,6 +148,12 @@ pub fn andor_case(k: usize, is_and: bool) {
         }
         j += 1;
     }
+    let pz = poison();
+    #[cfg(verif_replay)]
+    let args = poisoned(&vals, &pz, k, &order, n);
+    log_reset();
+    let r = if is_and { logic::and(&data, &args) } else { logic::or(&data, &args) };
+    vshow!("{}{:?} = {:?}", if is_and { "and" } else { "or" }, args, r);
     match &r {
         Ok(v) => assert!(same_scalar(v, &vals[sel]), "C05: and/or returned a different operand value than the deciding one"),
         _ => assert!(false, "C05: and/or failed on literal operands"),
